@@ -1,3 +1,4 @@
+#![cfg_attr(kani, feature(allocator_api))]
 //! Engine K harnesses over midnight-proofs / midnight-zk-stdlib / midnight-zkir / midnight-circuits.
 //! Every harness is a plain `pub fn` that is a `#[kani::proof]` under `cfg(kani)` and is run natively
 //! by `src/bin/replay.rs` with `any()` fed from the solver's counterexample (see vk.rs).
@@ -12,6 +13,7 @@ pub mod h_arch;
 pub mod h_batch;
 pub mod h_domain;
 pub mod h_vk_read;
+pub mod h_zkir;
 
 pub mod registry;
 
